@@ -36,26 +36,26 @@ type checkCfg struct {
 }
 
 var checks = map[string]checkCfg{
-	"C01": {Race: true, ShardsQuick: 8, ShardsThorough: 16, TimeoutQuick: 600, TimeoutThor: 3600},
-	"C02": {Race: true, ShardsQuick: 8, ShardsThorough: 16, TimeoutQuick: 600, TimeoutThor: 3600},
-	"C03": {Race: true, ShardsQuick: 8, ShardsThorough: 16, TimeoutQuick: 600, TimeoutThor: 3600},
-	"C04": {Race: true, ShardsQuick: 8, ShardsThorough: 16, TimeoutQuick: 600, TimeoutThor: 3600},
-	"C05": {Race: false, ShardsQuick: 8, ShardsThorough: 16, TimeoutQuick: 600, TimeoutThor: 3600},
-	"C06": {Race: false, ShardsQuick: 8, ShardsThorough: 16, TimeoutQuick: 600, TimeoutThor: 3600},
-	"C07": {Race: false, ShardsQuick: 8, ShardsThorough: 16, TimeoutQuick: 600, TimeoutThor: 3600},
-	"C08": {Race: true, ShardsQuick: 8, ShardsThorough: 16, TimeoutQuick: 600, TimeoutThor: 3600},
-	"C09": {Race: true, ShardsQuick: 8, ShardsThorough: 16, TimeoutQuick: 600, TimeoutThor: 3600},
-	"C10": {Race: true, ShardsQuick: 8, ShardsThorough: 16, TimeoutQuick: 600, TimeoutThor: 3600},
-	"C11": {Race: true, ShardsQuick: 8, ShardsThorough: 16, TimeoutQuick: 600, TimeoutThor: 3600},
-	"C12": {Race: false, ShardsQuick: 8, ShardsThorough: 16, TimeoutQuick: 600, TimeoutThor: 3600},
-	"C13": {Race: true, ShardsQuick: 8, ShardsThorough: 16, TimeoutQuick: 600, TimeoutThor: 3600},
-	"C14": {Race: false, ShardsQuick: 8, ShardsThorough: 16, TimeoutQuick: 600, TimeoutThor: 3600},
-	"C15": {Race: false, ShardsQuick: 8, ShardsThorough: 16, TimeoutQuick: 600, TimeoutThor: 3600},
-	"C16": {Race: true, ShardsQuick: 8, ShardsThorough: 16, TimeoutQuick: 600, TimeoutThor: 3600},
-	"C17": {Race: true, ShardsQuick: 8, ShardsThorough: 16, TimeoutQuick: 600, TimeoutThor: 3600},
-	"C18": {Race: true, ShardsQuick: 8, ShardsThorough: 16, TimeoutQuick: 600, TimeoutThor: 3600},
-	"C19": {Race: true, ShardsQuick: 8, ShardsThorough: 16, TimeoutQuick: 600, TimeoutThor: 3600},
-	"C20": {Race: false, ShardsQuick: 8, ShardsThorough: 16, TimeoutQuick: 600, TimeoutThor: 3600},
+	"C01": {Race: true, ShardsQuick: 8, ShardsThorough: 16, TimeoutQuick: 600, TimeoutThor: 7200},
+	"C02": {Race: true, ShardsQuick: 8, ShardsThorough: 16, TimeoutQuick: 600, TimeoutThor: 7200},
+	"C03": {Race: true, ShardsQuick: 8, ShardsThorough: 16, TimeoutQuick: 600, TimeoutThor: 7200},
+	"C04": {Race: true, ShardsQuick: 8, ShardsThorough: 16, TimeoutQuick: 600, TimeoutThor: 7200},
+	"C05": {Race: false, ShardsQuick: 8, ShardsThorough: 16, TimeoutQuick: 600, TimeoutThor: 7200},
+	"C06": {Race: false, ShardsQuick: 8, ShardsThorough: 16, TimeoutQuick: 600, TimeoutThor: 7200},
+	"C07": {Race: false, ShardsQuick: 8, ShardsThorough: 16, TimeoutQuick: 600, TimeoutThor: 7200},
+	"C08": {Race: true, ShardsQuick: 8, ShardsThorough: 16, TimeoutQuick: 600, TimeoutThor: 7200},
+	"C09": {Race: true, ShardsQuick: 8, ShardsThorough: 16, TimeoutQuick: 600, TimeoutThor: 7200},
+	"C10": {Race: true, ShardsQuick: 8, ShardsThorough: 16, TimeoutQuick: 600, TimeoutThor: 7200},
+	"C11": {Race: true, ShardsQuick: 8, ShardsThorough: 16, TimeoutQuick: 600, TimeoutThor: 7200},
+	"C12": {Race: false, ShardsQuick: 8, ShardsThorough: 16, TimeoutQuick: 600, TimeoutThor: 7200},
+	"C13": {Race: true, ShardsQuick: 8, ShardsThorough: 16, TimeoutQuick: 600, TimeoutThor: 7200},
+	"C14": {Race: false, ShardsQuick: 8, ShardsThorough: 16, TimeoutQuick: 600, TimeoutThor: 7200},
+	"C15": {Race: false, ShardsQuick: 8, ShardsThorough: 16, TimeoutQuick: 600, TimeoutThor: 7200},
+	"C16": {Race: true, ShardsQuick: 8, ShardsThorough: 16, TimeoutQuick: 600, TimeoutThor: 7200},
+	"C17": {Race: true, ShardsQuick: 8, ShardsThorough: 16, TimeoutQuick: 600, TimeoutThor: 7200},
+	"C18": {Race: true, ShardsQuick: 8, ShardsThorough: 16, TimeoutQuick: 600, TimeoutThor: 7200},
+	"C19": {Race: true, ShardsQuick: 8, ShardsThorough: 16, TimeoutQuick: 600, TimeoutThor: 7200},
+	"C20": {Race: false, ShardsQuick: 8, ShardsThorough: 16, TimeoutQuick: 600, TimeoutThor: 7200},
 }
 
 var (
